@@ -141,6 +141,14 @@ func runC10(r *fw.Runner) {
 		} {
 			c10Compare(c, composer, dup, l, "directed", fmt.Sprint("also-known-as-with-repeated-uri-", i))
 		}
+		// RFC 6902 moves and copies between members whose names (or pointers) begin alike: siblings, not parent and child
+		sib := map[string]interface{}{"publicKey": []interface{}{k1}, "created": 1, "meta": map[string]interface{}{"tag": "x", "ta": []interface{}{1, 2}}, "a": map[string]interface{}{"b": 1}, "ab": 2}
+		for i, ops := range [][]interface{}{
+			{op("move", "/createdAt", "from", "/created")}, {op("move", "/meta/tagline", "from", "/meta/tag")}, {op("copy", "/createdAt", "from", "/created")}, {op("move", "/abc", "from", "/ab")},
+			{op("move", "/a/bc", "from", "/a/b")}, {op("move", "/meta/tag", "from", "/meta/ta")}, {op("move", "/created", "from", "/created")}, {op("copy", "/meta/ta/0x", "from", "/meta/ta/0")},
+		} {
+			c10Compare(c, composer, sib, []interface{}{gen.PJSON(ops...)}, "directed", fmt.Sprint("json-patch-between-siblings-with-common-prefix-", i))
+		}
 		plain := map[string]interface{}{"publicKey": []interface{}{k1}}
 		for i, l := range [][]interface{}{{gen.PAddAka("")}, {gen.PAddAka("", "#me")}, {gen.PAddAka("x"), gen.PAddAka("")}} {
 			c10Compare(c, composer, plain, l, "directed", fmt.Sprint("odd-uri-references-fresh-", i))
